@@ -14,6 +14,7 @@ import Restful.Model.Conc
 import Restful.Gen.Facts
 import Restful.Lemmas.Pool
 import Restful.Lemmas.Panic
+import Restful.Lemmas.StateShape
 namespace Restful
 namespace Props
 open Gen Conc
@@ -64,6 +65,12 @@ theorem C13_release_sites :
 -- also: Restful.Pool.C13_acquire_fresh_or_cached
 -- also: Restful.Pool.sync_pool_contract
 -- also: Restful.Pool.F13_witness
+
+/-! The frame condition (Lemmas/StateShape.lean): the code has exactly the state this property's model
+    accounts for — no further package-level variable, struct type or field; constants as modelled. -/
+-- also: Restful.StateShape.globals_shape
+-- also: Restful.StateShape.consts_shape
+-- also: Restful.StateShape.compress_shape
 
 end Props
 end Restful
